@@ -1,5 +1,232 @@
-(* C07 - placeholder while the proofs are being written; replaced below. *)
-From Coq Require Import List.
-From PMS Require Import Model.Gateway.
-Theorem C07_placeholder : True. Proof. exact I. Qed.
-Print Assumptions C07_placeholder.
+(* C07 - nothing is sent to a sleeping node outside its wake window.  Statements only.
+   Machine: Model/Gateway.v over the GENERATED tables and registry; oracles and clock universally
+   quantified; all five configurations (cfg_ok); both task flavours (cf_async true / false).
+   A node SLEEPS (is_smart_sleep_node) when its desired-state dict n_new is non-empty: from the
+   first wake-up announcement processed while it has a child.  Proofs: Proofs/Sleep*.v. *)
+From Coq Require Import List NArith ZArith Bool String.
+From PMS Require Import Base.PyStr Base.Exn Model.Codec Model.TableTypes Gen.Tables Model.Validate
+  Model.Oracles Model.Hex Model.Ota Model.Gateway Spec.SerialApi Proofs.ValidateProofs Proofs.GwInv
+  Proofs.SleepDefs Proofs.SleepFlush Proofs.SleepTrans Proofs.SleepLife Proofs.SleepProofs
+  Proofs.SleepExamples.
+Import ListNotations.
+Open Scope string_scope.
+Open Scope list_scope.
+Open Scope Z_scope.
+
+(* ------------------------------------------------------------------ vocabulary *)
+(* node id / command of a line as the receiver reads them (first / third ";" field): defined for
+   the encoding of EVERY message, whatever its payload *)
+Theorem C07_line_header : forall m, line_node (encode m) = Some (m_node m) /\ line_type (encode m) = Some (m_type m).
+Proof. exact line_header. Qed.
+
+(* which lines are wake-up announcements (the dispatcher reaches handle_heartbeat_response /
+   handle_pre_sleep_notification): internal command (3), sub-type 22 in 2.0 / 2.1, 32 in 2.2, none
+   in 1.4 / 1.5 - a finite fact about the generated registry *)
+Theorem C07_wake_announcements :
+  forall v m, wake_msg (tab_of v) m =
+              match v with
+              | V20 | V21 => (m_type m =? 3) && (m_sub m =? 22)
+              | V22 => (m_type m =? 3) && (m_sub m =? 32)
+              | _ => false
+              end.
+Proof. exact wake_announcements. Qed.
+
+(* the invariants the theorems below assume hold in every reachable state: Inv (C01), QInv (every
+   withheld string is the encoding of a message addressed to the node whose queue holds it), CInv
+   (children are keyed by their own id) *)
+Theorem C07_reachable_invariants :
+  forall orc clock cf ops, cfg_ok cf -> Forall op_ok ops ->
+    let g := run orc clock (gw_init cf) ops in Inv orc g /\ QInv g /\ CInv g /\ g_cf g = cf.
+Proof. exact reachable_sleep_inv. Qed.
+
+(* ------------------------------------------------------------------ 1. routing *)
+(* a non-stream, non-presentation message for a known sleeping node is not returned: its
+   encoding is appended at the END of that node's queue, nothing else changes *)
+Theorem C07_route_withholds :
+  forall orc g m nd, Inv orc g ->
+    m_type m <> vt_presentation (tab g) -> m_type m <> vt_stream (tab g) ->
+    get_node g (m_node m) = Some nd -> sleeping nd = true ->
+    route g m = (enqueue g nd (encode m), None) /\
+    let g' := enqueue g nd (encode m) in
+    get_node g' (m_node m) = Some (with_queue nd (n_queue nd ++ [encode m])) /\
+    (forall k, k <> m_node m -> get_node g' k = get_node g k) /\
+    map fst (g_sensors g') = map fst (g_sensors g) /\
+    g_cf g' = g_cf g /\ g_ota g' = g_ota g /\ g_metric g' = g_metric g /\ g_jobs g' = g_jobs g /\
+    g_dirty g' = g_dirty g /\ g_log g' = g_log g.
+Proof. exact route_withholds. Qed.
+
+(* unknown node, node that does not sleep, or stream message: returned, state untouched *)
+Theorem C07_route_passes :
+  forall g m, m_type m <> vt_presentation (tab g) ->
+    (get_node g (m_node m) = None \/ (exists nd, get_node g (m_node m) = Some nd /\ sleeping nd = false) \/
+     m_type m = vt_stream (tab g)) ->
+    route g m = (g, Some m).
+Proof. exact route_passes. Qed.
+
+(* (a reply of presentation type - handle_presentation returns its own message - is never sent) *)
+Theorem C07_route_drops_presentation :
+  forall g m, m_type m = vt_presentation (tab g) -> route g m = (g, None).
+Proof. exact route_drops_presentation. Qed.
+
+(* traffic for other nodes is never delayed: routing changes no node except the addressee, and
+   the addressee only when it sleeps *)
+Theorem C07_others_not_delayed :
+  forall orc g m k nd, Inv orc g -> get_node g k = Some nd ->
+    exists nd', get_node (fst (route g m)) k = Some nd' /\
+      (nd' = nd \/ (k = m_node m /\ sleeping nd = true /\ nd' = with_queue nd (n_queue nd ++ [encode m]) /\
+                    snd (route g m) = None)).
+Proof. exact others_not_delayed. Qed.
+
+(* ------------------------------------------------------------------ 2. one processed line *)
+(* every string the dispatcher emits while processing line l - sent at once (asyncio: log delta d),
+   queued as a send job (threaded: job delta j), or returned as the reply - that is addressed to
+   a node n sleeping BEFORE the call is of stream type, or l is a wake-up announcement of n *)
+Theorem C07_logic_sends_to_sleeping_only_on_wake :
+  forall orc clock g l g' reply,
+    cfg_ok (g_cf g) -> Inv orc g -> QInv g -> logic orc clock g l = Ok (g', reply) ->
+    exists d j, g_log g' = g_log g ++ d /\ g_jobs g' = g_jobs g ++ j /\
+      (cf_async (g_cf g) = true -> j = []) /\
+      (forall x, In x j -> exists s, x = JSend s) /\
+      forall s, (In (ESend s) d \/ In (JSend s) j \/ reply = Some s) ->
+        forall n nd, line_node s = Some n -> get_node g n = Some nd -> sleeping nd = true ->
+          line_type s = Some (vt_stream (tab g)) \/ is_wake_line orc g l n.
+Proof. exact logic_sends_to_sleeping_only_on_wake. Qed.
+
+(* ------------------------------------------------------------------ 3. every step of every history *)
+(* any history from the initial state (any arrival order of lines, pump iterations, controller
+   calls), any next step o, both flavours: a string the step hands to the transport is a send job
+   queued by an EARLIER step (threaded pump), or obeys the rule w.r.t. the state before the step;
+   a job the step queues is the arriving line (threaded) or a send that obeys the rule *)
+Theorem C07_step_sends_to_sleeping_only_on_wake :
+  forall orc clock cf ops o, cfg_ok cf -> Forall op_ok ops -> op_ok o ->
+    let g := run orc clock (gw_init cf) ops in
+    let g' := step orc clock g o in
+    exists d j, g_log g' = g_log g ++ d /\ g_jobs g' = jobs_base g o ++ j /\
+      (forall s, In (ESend s) d ->
+         queued_send g o s \/
+         forall n nd, line_node s = Some n -> get_node g n = Some nd -> sleeping nd = true ->
+           line_type s = Some (vt_stream (tab g)) \/
+           exists l, processed g o = Some l /\ is_wake_line orc g l n) /\
+      (forall x, In x j ->
+         queued_line g o x \/
+         exists s, x = JSend s /\
+           forall n nd, line_node s = Some n -> get_node g n = Some nd -> sleeping nd = true ->
+             line_type s = Some (vt_stream (tab g)) \/
+             exists l, processed g o = Some l /\ is_wake_line orc g l n).
+Proof. exact reachable_step_sends_to_sleeping_only_on_wake. Qed.
+
+(* threaded flavour, whole histories: with the erasable ghost that records, for each queued job,
+   the state g0 and cause of the step that queued it (run_ghost erases to run), every send job
+   waiting in the queue obeyed the rule w.r.t. g0 - so what the pump later hands to the transport
+   for a node that slept when the job was queued is a stream response or part of the burst
+   queued by that node's wake-up announcement *)
+Theorem C07_queued_sends_have_allowed_origin :
+  forall orc clock cf ops, cfg_ok cf -> Forall op_ok ops ->
+    let gs := run_ghost orc clock (gw_init cf, []) ops in
+    fst gs = run orc clock (gw_init cf) ops /\
+    Forall2 (fun x og => match x with
+                         | JSend s => forall n nd, line_node s = Some n -> get_node (fst og) n = Some nd ->
+                                        sleeping nd = true ->
+                                        line_type s = Some (vt_stream (tab (fst og))) \/ snd og = CWake n
+                         | JLogic _ => True
+                         end) (g_jobs (fst gs)) (snd gs).
+Proof. exact queued_sends_have_allowed_origin. Qed.
+
+(* the controller call on a sleeping node queues nothing, logs nothing, sends nothing *)
+Theorem C07_set_child_value_sleeping_silent :
+  forall orc g sid cid vt v mt a nd g',
+    get_node g sid = Some nd -> zhas cid (n_children nd) = true -> sleeping nd = true ->
+    set_child_value orc g sid cid vt v mt a = Ok g' ->
+    g_log g' = g_log g /\ g_jobs g' = g_jobs g /\ g_ota g' = g_ota g /\ g_cf g' = g_cf g /\
+    g_dirty g' = g_dirty g /\ g_metric g' = g_metric g /\
+    exists vti dv, vt_int vt = Some vti /\ zassoc cid (n_new nd) = Some dv /\
+                   gw_accepts orc g (n_id nd) cid vti v = true /\ node_accepts orc nd cid vti v = true /\
+                   g' = put_node g (store_desired nd cid vti v dv).
+Proof. exact set_child_value_sleeping_silent. Qed.
+
+(* ------------------------------------------------------------------ 4. release only on wake *)
+(* in every step every hold queue is prefix-extended, except in the step that processes that
+   node's own wake-up announcement *)
+Theorem C07_release_only_on_wake :
+  forall orc clock g o k nd,
+    cfg_ok (g_cf g) -> Inv orc g -> QInv g -> op_ok o -> get_node g k = Some nd ->
+    exists nd', get_node (step orc clock g o) k = Some nd' /\
+      ((exists ext, n_queue nd' = n_queue nd ++ ext) \/
+       (exists l, processed g o = Some l /\ is_wake_line orc g l k)).
+Proof. exact release_only_on_wake. Qed.
+
+Theorem C07_logic_release_only_on_wake :
+  forall orc clock g l g' reply k nd,
+    cfg_ok (g_cf g) -> Inv orc g -> QInv g -> logic orc clock g l = Ok (g', reply) ->
+    get_node g k = Some nd ->
+    exists nd', get_node g' k = Some nd' /\
+      ((exists ext, n_queue nd' = n_queue nd ++ ext) \/ is_wake_line orc g l k).
+Proof. exact logic_release_only_on_wake. Qed.
+
+(* a node never stops sleeping, and starts only in the step that processes its own announcement *)
+Theorem C07_sleeping_changes_only_on_wake :
+  forall orc clock g o k nd,
+    cfg_ok (g_cf g) -> Inv orc g -> QInv g -> op_ok o -> get_node g k = Some nd ->
+    exists nd', get_node (step orc clock g o) k = Some nd' /\
+      (sleeping nd = true -> sleeping nd' = true) /\
+      (sleeping nd' = sleeping nd \/ exists l, processed g o = Some l /\ is_wake_line orc g l k).
+Proof. exact sleeping_changes_only_on_wake. Qed.
+
+(* ------------------------------------------------------------------ non-vacuity *)
+(* configurations and histories: Proofs/SleepExamples.v (2.2 gateway; node 1 presented with one
+   child, one report, then a pre-sleep notification: it sleeps; node 2 presented and awake) *)
+(* asyncio flavour: the reply to a request of the sleeping node 1 is withheld, the reply to node 2
+   leaves at once although node 1 has traffic pending, and node 1's reply leaves at its wake-up *)
+Example C07_example_async :
+  let g := run ex_orc 0 (gw_init ex_cfA) ex_setup in
+  ex_sleeps g 1 = Some true /\ ex_sleeps g 2 = Some false /\ g_log g = [] /\
+  (let g' := step ex_orc 0 g (ex_R "1;1;2;0;2;") in
+   g_log g' = [] /\ ex_queue g' 1 = Some [ex_line "1;1;1;0;2;0"]) /\
+  (let g' := run ex_orc 0 g [ex_R "1;1;2;0;2;"; ex_R "2;1;2;0;2;"] in
+   g_log g' = [ESend (ex_line "2;1;1;0;2;1")] /\ ex_queue g' 1 = Some [ex_line "1;1;1;0;2;0"]) /\
+  (let g' := run ex_orc 0 g [ex_R "1;1;2;0;2;"; ex_wake1] in
+   g_log g' = [ESend (ex_line "1;1;1;0;2;0")] /\ ex_queue g' 1 = Some []).
+Proof. vm_compute. repeat split; reflexivity. Qed.
+
+(* threaded flavour: the wake-up queues the burst as send jobs, the next pump iteration sends it *)
+Example C07_example_threaded :
+  let g := run ex_orc 0 (gw_init ex_cfT) (ex_pumped ex_setup) in
+  ex_sleeps g 1 = Some true /\ g_log g = [] /\ g_jobs g = [] /\
+  (let g' := run ex_orc 0 g [ex_R "1;1;2;0;2;"; Pump; ex_wake1; Pump] in
+   g_log g' = [] /\ g_jobs g' = [JSend (ex_line "1;1;1;0;2;0")] /\ ex_queue g' 1 = Some []) /\
+  (let g' := run ex_orc 0 g [ex_R "1;1;2;0;2;"; Pump; ex_wake1; Pump; Pump] in
+   g_log g' = [ESend (ex_line "1;1;1;0;2;0")] /\ g_jobs g' = []).
+Proof. vm_compute. repeat split; reflexivity. Qed.
+
+(* 2.1: the heartbeat response is the announcement *)
+Example C07_example_21 :
+  let g := run ex_orc 0 (gw_init ex_cf21)
+               [ex_R "1;255;0;0;17;2.1"; ex_R "1;1;0;0;3;"; ex_R "1;1;1;0;2;0"; ex_R "1;255;3;0;22;77";
+                ex_R "1;1;2;0;2;"] in
+  ex_sleeps g 1 = Some true /\ g_log g = [] /\ ex_queue g 1 = Some [ex_line "1;1;1;0;2;0"].
+Proof. vm_compute. repeat split; reflexivity. Qed.
+
+(* the premises of the theorems are satisfiable: the announcement line of the example is one *)
+Example C07_example_is_wake_line :
+  let g := run ex_orc 0 (gw_init ex_cfA) ex_setup in
+  is_wake_line ex_orc g (s2p "1;255;3;0;32;500") 1 /\ cfg_ok (g_cf g).
+Proof.
+  split.
+  - exists (mkMsg 1 255 3 0 32 (s2p "500")). vm_compute. repeat split; reflexivity.
+  - exists V22. split; reflexivity.
+Qed.
+
+Print Assumptions C07_line_header.
+Print Assumptions C07_wake_announcements.
+Print Assumptions C07_reachable_invariants.
+Print Assumptions C07_route_withholds.
+Print Assumptions C07_route_passes.
+Print Assumptions C07_route_drops_presentation.
+Print Assumptions C07_others_not_delayed.
+Print Assumptions C07_logic_sends_to_sleeping_only_on_wake.
+Print Assumptions C07_step_sends_to_sleeping_only_on_wake.
+Print Assumptions C07_queued_sends_have_allowed_origin.
+Print Assumptions C07_set_child_value_sleeping_silent.
+Print Assumptions C07_release_only_on_wake.
+Print Assumptions C07_logic_release_only_on_wake.
+Print Assumptions C07_sleeping_changes_only_on_wake.
